@@ -152,7 +152,10 @@ Inductive event :=
   | LBuild                       (* loop: build rlist, enter select *)
   | LSelect                      (* select returns all ready descriptors of rlist (only if there is one) *)
   | LBody (acc : option N)       (* loop body after select; acc = the listener rset.pop() yields, if any *)
-  | LFinal                       (* finally: recv(1) + close on the next worker socket *)
+  | LFinal                       (* finally: recv(1) + close on the next worker socket.  ASSUMED (and monitored on the
+                                    implementation at every select call and end-to-end for every auth back-end): the socket
+                                    pair is blocking, i.e. nobody changed the process-wide socket default timeout -- with a
+                                    timeout the recv raises and serve() leaves the finally block with requests in flight *)
   | LClose.                      (* finally: server_close(); serve returns *)
 
 Inductive obs :=
